@@ -285,6 +285,13 @@ def run(ctx):
         ctx.touched(s)
         fs = s.calls_to('slice::first')
         snd = s.calls_to('Out::send')
-        ctx.check(len(fs) == 1 and len(snd) == 1, 'C15-R3', 'start-sends-first', s,
+        first_ok = len(fs) == 1
+        if not fs and len(snd) == 1:
+            # the slice-pattern spelling `[(dst, msg), ..]`: the destination is element 0 of the script itself
+            dv = noref(s.trace(s.val(snd[0].args[1]), ('Vec::as_slice', 'Deref::deref', 'AsRef::as_ref', 'Clone::clone')))
+            idx0 = [q for q in dv.projs if q.startswith('[')]
+            root = noref(s.trace(V(dv.kind, dv.key), ('Vec::as_slice', 'Deref::deref', 'AsRef::as_ref')))
+            first_ok = idx0[:1] == ['[0]'] and root.kind == 'arg' and root.key == 1
+        ctx.check(first_ok and len(snd) == 1, 'C15-R3', 'start-sends-first', s,
                   good='on_start sends exactly the first script entry',
                   bad='Vec<(Id, Msg)>::on_start does not send exactly script.first()')
